@@ -221,7 +221,7 @@ fn serve_one(s: &mut TcpStream, handler: &Arc<Mutex<Option<Handler>>>) -> bool {
             Some(f) => match std::panic::catch_unwind(std::panic::AssertUnwindSafe(|| f(&req))) {
                 Ok(r) => r,
                 Err(_) => {
-                    eprintln!("MACHINERY: simulator handler panicked on {:?}", req.raw());
+                    crate::core::elog!("MACHINERY: simulator handler panicked on {:?}", req.raw());
                     HANDLER_PANICS.fetch_add(1, Ordering::SeqCst);
                     Response::new(500, b"handler panic".to_vec())
                 }
